@@ -184,6 +184,7 @@
   (ite (and (k_dict c) (k_str k)) (dval c (sval k))
   v_absent))))
 ; exception code of c[k]: 0 none, 1 KeyError, 2 IndexError, 3 TypeError
+(declare-fun obj_getitem_exc (V V) Int)   ; objects: depends on the class's __getitem__ (known only when the class is)
 (define-fun getitem_exc ((c V) (k V)) Int
   (ite (and (or (k_list c) (k_tuple c)) (or (k_int k) (k_bool k)))
        (let ((i (norm_index (seq.len (seqof c)) (ite (k_int k) (ival k) (ite (bval k) 1 0)))))
@@ -191,7 +192,8 @@
   (ite (or (k_list c) (k_tuple c)) 3
   (ite (and (k_dict c) (k_str k)) (ite (dhas c (sval k)) 0 1)
   (ite (k_dict c) 1
-  3)))))
+  (ite (k_obj c) (ite (not_subscriptable (class_of (oid c))) 3 (obj_getitem_exc c k))
+  3))))))
 
 ; ---- str()/repr() images: uninterpreted
 (declare-fun py_str (V) String)
